@@ -320,6 +320,47 @@ fn run_roc(inp: &Value) -> Vec<Value> {
     out
 }
 
+/// ulp-neighbour scores: rank r -> 1/2 + r 2^-24 ("half"), r 2^-30 ("zero"), 1 - r 2^-24 ("one");
+/// all exactly representable in f32 for the small ranks used, gaps >= 2^-30 > 1e-10
+fn run_rocu(inp: &Value) -> Vec<Value> {
+    let ranks = ivec(&inp["rank"]);
+    let base = gets(inp, "base").to_string();
+    let truth: Vec<bool> = ivec(&inp["truth"]).iter().map(|x| *x == 1).collect();
+    let perm = get_perm(inp, ranks.len());
+    let mut out = Vec::new();
+    let mut variants = vec![(0i64, ranks.clone(), truth.clone())];
+    if !is_identity(&perm) {
+        variants.push((1, permute(&ranks, &perm), permute(&truth, &perm)));
+    }
+    let ulp24 = 2f32.powi(-24);
+    let ulp30 = 2f32.powi(-30);
+    for (p, rs, tr) in variants {
+        let n = rs.len();
+        let scores: Vec<Pr> = rs
+            .iter()
+            .map(|r| {
+                let r = *r as f32;
+                Pr::new(match base.as_str() {
+                    "half" => 0.5f32 + r * ulp24,
+                    "zero" => r * ulp30,
+                    _ => 1.0f32 - r * ulp24,
+                })
+            })
+            .collect();
+        let sa: Array1<Pr> = Array1::from(scores.clone());
+        let recs = Array2::<f64>::zeros((n, 1));
+        {
+            let sl: &[Pr] = &scores;
+            roc_json("slice", p, guarded(|| sl.roc(&tr[..])), &mut out);
+        }
+        roc_json("arr", p, guarded(|| sa.roc(&tr[..])), &mut out);
+        let ds = DatasetBase::new(recs.clone(), sa.clone());
+        let dt = DatasetBase::new(recs.clone(), Array1::from(tr.clone()));
+        roc_json("ds", p, guarded(|| ds.roc(&dt)), &mut out);
+    }
+    out
+}
+
 // ---------------------------------------------------------------------------------------------
 // regression scores
 
@@ -519,6 +560,7 @@ fn main() {
         match gets(case, "kind") {
             "cm" => run_cm(inp),
             "roc" => run_roc(inp),
+            "rocu" => run_rocu(inp),
             "reg" => run_reg(inp),
             "mreg" => run_mreg(inp),
             "sil" => run_sil(inp),
